@@ -464,10 +464,27 @@ def check_property(prop, tier='quick', seed=0, only=None):
             ctx = multiprocessing.get_context('fork')
             with ctx.Pool(min(len(extra_seeds) + 1, max(2, (os.cpu_count() or 4) // 2)), maxtasksperchild=1) as pool:
                 allseeds = [seed] + extra_seeds
-                runs = pool.map(_bounded_worker, [(prop, tier, sd, (i, len(allseeds))) for i, sd in enumerate(allseeds)], chunksize=1)
+                limit = int(os.environ.get('PYVC_BOUNDED_LIMIT_S', '7200'))
+                try:
+                    runs = pool.map_async(_bounded_worker, [(prop, tier, sd, (i, len(allseeds))) for i, sd in enumerate(allseeds)], chunksize=1).get(timeout=limit)
+                except multiprocessing.TimeoutError:
+                    pool.terminate()
+                    raise CheckerDefect('the bounded tier did not finish within %d s' % limit)
             b = merge_bounded(runs, [seed] + extra_seeds)
         else:
-            b = mod.bounded(tier, seed)
+            # in a child process with a hard limit: a bounded exploration that blocks (a deadlock or an endless wait in code under test that the
+            # tier's own guards did not foresee) ends the check with exit 3 instead of hanging it
+            import multiprocessing
+            ctx = multiprocessing.get_context('fork')
+            limit = int(os.environ.get('PYVC_BOUNDED_LIMIT_S', '1800'))
+            with ctx.Pool(1) as pool:
+                try:
+                    b = pool.apply_async(_bounded_worker, ((prop, tier, seed, (0, 1)),)).get(timeout=limit)
+                except multiprocessing.TimeoutError:
+                    pool.terminate()
+                    raise CheckerDefect('the bounded tier did not finish within %d s' % limit)
+            if b.get('crashed'):
+                raise CheckerDefect('bounded tier crashed: ' + b['crashed'])
             b.pop('distinct_keys', None)
         res.bounded = b
         nb = 0
